@@ -151,6 +151,22 @@ Theorem C04_env_abbreviations : forall n m k, resolve_long n (longs env_spec) = 
 Proof. exact (fun n m k => long_names_resolve ENV_LONG_OPTIONS (longs env_spec) n m k (proj1 env_tables_perm) (proj2 env_tables_perm)). Qed.
 Print Assumptions C04_env_abbreviations.
 
+(* env -S STRING WORD...: env ends STRING at a "#" comment and still runs WORD...; such a string is asked about *)
+Theorem C04_env_split_string_comment_asks : forall kept value rest, mem_ch 35 value = true ->
+  env_scan kept ($"-S" :: value :: rest) = HAsk /\ env_scan kept ($"--split-string" :: value :: rest) = HAsk /\
+  env_scan kept ($"-iS" :: value :: rest) = HAsk /\ env_scan kept ($"--split" :: value :: rest) = HAsk.
+Proof. exact env_S_comment. Qed.
+Print Assumptions C04_env_split_string_comment_asks.
+Theorem C04_env_split_string_plain : forall kept value rest, mem_ch 35 value = false ->
+  env_scan kept ($"-S" :: value :: rest) = HString (join [32] (value :: rest)).
+Proof. exact env_S_plain. Qed.
+Print Assumptions C04_env_split_string_plain.
+Theorem C04_env_split_string_witnesses :
+  modelled (w ["env"; "-S"; "#"; "rm"; "x"]) = Some HAsk /\ modelled (w ["env"; "-S#"; "rm"; "x"]) = Some HAsk /\
+  modelled (w ["env"; "-S"; "ls #"; "rm"; "x"]) = Some HAsk /\ modelled (w ["env"; "-S"; "ls -la"; "x"]) = Some (HString $"ls -la x").
+Proof. exact env_S_comment_witness. Qed.
+Print Assumptions C04_env_split_string_witnesses.
+
 (* xargs COMMAND ARG... and xargs -- COMMAND ARG...: the command plus one unknown appended argument is judged *)
 Theorem C04_extract_xargs : forall c0 cs, dash c0 = false -> xargs_unsafe (c0 :: cs) = false ->
   xargs_h ($"xargs" :: c0 :: cs) = HWords [(c0 :: cs) ++ [PLACEHOLDER]] false /\ xargs_exec (c0 :: cs) = Some [c0 :: cs].
